@@ -1,16 +1,17 @@
 """Which units decide which property, and what is claimed (feeds MANIFEST.json)."""
 from catalog import P, NOT_APPLICABLE, PROPERTY_UNITS
 
-P("C25", [("K1", r"^k1_(c_db|c_bv|l_shift)"), ("K2", None), ("K2S", None), ("V16", None)],
+P("C25", [("K1", r"^k1_(c_db|c_bv|l_shift)"), ("K2", None), ("K2S", None), ("V16", None), ("V32", None)],
   "proof",
   "Kani function contracts on the real DebruijnIndex/BoundVar shift functions, proved over the full u32/usize domains "
   "(loop-free, so complete), and the shift laws of C25 proved as lemmas over those contracts (stub_verified). "
   "Verus proves on the verbatim text that the DEFAULT free-variable callbacks of both folder traits give back the same occurrence (index kept, depth shifted in by exactly outer_binder, "
-  "a constant's type folded at the same depth) — the leaf of 'a folder that changes nothing returns an equal term'. "
+  "a constant's type folded at the same depth) — the leaf of 'a folder that changes nothing returns an equal term' — and that the three callbacks of Subst (the leaf of Binders::substitute) "
+  "return, for a variable of the eliminated binder, exactly parameters[index] shifted in by outer_binder, and for a variable of an enclosing binder the same index one level down (V32, both branches, all three kinds). "
   "Leaf level only: the lifting to whole terms through TypeFoldable is an assumption.",
   "Assumed: derived/hand-written TypeFoldable impls are homomorphic and bump the binder depth exactly at binders "
   "(fold_is_homomorphic); Kani/CBMC soundness.",
-  "contract-based deductive verification: Kani function contracts (proof_for_contract + stub_verified), loop-free full-domain")
+  "contract-based deductive verification: Kani function contracts (proof_for_contract + stub_verified), loop-free full-domain; Verus on mechanically extracted function text")
 
 P("C17", [("V1", None), ("V13", None)],
   "proof",
